@@ -29,6 +29,9 @@ use corosensei::{Coroutine, CoroutineResult, Yielder};
 pub const MAXT: usize = 8;
 const NOBODY: usize = usize::MAX;
 const CONTROLLER: usize = usize::MAX - 1;
+/// `current` value telling the controller to give up on the execution (it does not terminate
+/// even while draining): the unfinished coroutines are leaked and never resumed.
+const ABANDON: usize = usize::MAX - 2;
 
 thread_local! {
     // Const-initialised, no destructor: usable at any point of an OS thread's life.
@@ -336,6 +339,7 @@ unsafe impl Sync for Global {}
 unsafe impl Send for Global {}
 
 static GLOBAL: OnceLock<Global> = OnceLock::new();
+static ABANDONED: CoreUsize = CoreUsize::new(0);
 static OWNER: Mutex<()> = Mutex::new(());
 
 fn g() -> &'static Global {
@@ -395,6 +399,9 @@ fn sched_point(me: usize) {
     let next = with(|st| st.sched_decide(me));
     if let Some(n) = next {
         switch_to(me, n);
+        if n == ABANDON {
+            unreachable!("an abandoned model thread was resumed");
+        }
     }
 }
 
@@ -415,7 +422,7 @@ impl St {
         if st.steps > st.cfg.step_cap {
             if st.drain {
                 if st.steps > st.cfg.step_cap * 4 {
-                    fatal(st, "execution does not terminate while draining after a violation");
+                    return Some(ABANDON);
                 }
             } else {
                 let msg = format!("execution exceeded the step cap of {}", st.cfg.step_cap);
@@ -1575,6 +1582,27 @@ fn run_one(cfg: &Config, prefix: &[CP], body: &StdArc<dyn Fn() + Send + Sync>) -
     loop {
         let cur = with(|st| if st.done { None } else { Some(st.current) });
         let t = match cur {
+            Some(ABANDON) => {
+                // Leak what is left of this execution; the violation that started the drain is
+                // reported as usual.
+                let mut leaked = 0;
+                for slot in g().fibers.iter() {
+                    if let Some(mut co) = unsafe { (*slot.get()).take() } {
+                        // Forget the frames (no destructors run: they would touch state that is
+                        // about to be reset) but keep the stack memory for reuse.
+                        unsafe {
+                            co.force_reset();
+                            (*g().stacks.get()).push(co.into_stack());
+                        }
+                        leaked += 1;
+                    }
+                }
+                let total = ABANDONED.fetch_add(leaked, Ordering::Relaxed) + leaked;
+                if total > 1_000_000 {
+                    with(|st| fatal(st, "too many executions had to be abandoned because they do not terminate"));
+                }
+                break;
+            }
             Some(t) => t,
             None => break,
         };
